@@ -6,8 +6,10 @@ A *history* is a list of steps; every step is a dict
      'live': [<observation of every live handle after the step>]}
 Handles are indices into the pool in creation order (the model hands out the same numbers: `ONew (length pool)`)."""
 import copy
+import os
 import pickle
 import resource
+import tempfile
 from fractions import Fraction
 import numpy as np
 from core import zlit, zlist, optlit, strlit, qlit, listlit, blit
@@ -22,6 +24,59 @@ IMPORTS = ['From Coq Require Import QArith.', 'From E3FP Require Import Base.Pre
 DTYPE = {'KBit': np.bool_, 'KCount': np.uint16, 'KFloat': np.float64}
 NAMES = ['a', 'b', 'mol_0', 'CHEMBL25_1', 'x y', 'None']
 STRS = ['', 'x', 'yy', 'abc', 'a b', 'Z']
+
+
+NPTYPE = {'int': np.int64, 'float': np.float64, 'bool': np.bool_, 'str': '<U1'}
+KIND2TY = {'i': 'int', 'u': 'int', 'f': 'float', 'b': 'bool', 'U': 'str'}
+
+
+def attempt(f):
+    """fpgen.attempt with the one extra class the database model expects: AttributeError is what every method raises on a
+    database without matrix (`None.dtype`, `None.nnz`, `None.data`); the model maps it to EOther.  Anything else that is not
+    an `err` constructor keeps its EUnexpected_ tag and makes the comparison fail loudly."""
+    r = fpgen.attempt(f)
+    if r[0] == 'err' and r[1] == 'EUnexpected_AttributeError':
+        return ('err', 'EOther')
+    return r
+
+
+def typed(vals, ty):
+    """A property column as handed to set_prop/update_props: an EMPTY column carries its dtype (np.append(int_column, [])
+    would otherwise promote the stored column to float64 - `[]` is a float64 array)."""
+    vals = list(vals)
+    return np.array(vals, dtype=NPTYPE[ty or 'int']) if not vals else vals
+
+
+def ty_of(vals, default='int'):
+    for v in vals:
+        if isinstance(v, (bool, np.bool_)):
+            return 'bool'
+        if isinstance(v, (int, np.integer)):
+            return 'int'
+        if isinstance(v, (float, np.floating, Fraction)):
+            return 'float'
+        return 'str'
+    return default
+
+
+_FILES = [None]
+
+
+def set_workdir(path):
+    """Where reload operations write their .fpz / .fps files (props modules pass ctx.workdir)."""
+    _FILES[0] = os.path.join(path, 'dbfiles')
+    os.makedirs(_FILES[0], exist_ok=True)
+
+
+def files_dir():
+    if _FILES[0] is None or not os.path.isdir(_FILES[0]):
+        import atexit
+        import shutil
+        import core
+        os.makedirs(os.path.join(core.VERIF, 'work'), exist_ok=True)
+        _FILES[0] = tempfile.mkdtemp(prefix='dbgen.', dir=os.path.join(core.VERIF, 'work'))
+        atexit.register(shutil.rmtree, _FILES[0], True)
+    return _FILES[0]
 
 
 def mods():
@@ -159,7 +214,7 @@ def rand_props(rng, schema):
     return out
 
 
-def make_fp(rng, kind, bits, level, name, props, zero_counts=False, fractional=False):
+def make_fp(rng, kind, bits, level, name, props, zero_counts=False, fractional=False, big=False):
     """Returns {'fp': implementation object, 'obs': its observation, 'props': [(k, v)] in dict order}."""
     C = fpgen.classes()[kind]
     idx = fpgen.rand_indices(rng, bits, 6)
@@ -169,7 +224,7 @@ def make_fp(rng, kind, bits, level, name, props, zero_counts=False, fractional=F
     if kind == 'KBit':
         f = C.from_indices(np.array(idx, dtype=np.int64), **kw)
     elif kind == 'KCount':
-        cnt = {int(i): rng.choice([1, 1, 2, 3, 7, 200]) for i in idx}
+        cnt = {int(i): rng.choice([1, 1, 2, 3, 7, 200] + ([20000, 40000, 65535] * 2 if big else [])) for i in idx}
         if zero_counts and idx:
             cnt[idx[0]] = 0
         f = C.from_counts(cnt, **kw)
@@ -187,8 +242,10 @@ class History(object):
     """Executes operations on the implementation and records the trace for the model."""
     MAX_LIVE = 6
 
-    def __init__(self, rng, schema=None, bits=None, level='rand'):
+    def __init__(self, rng, schema=None, bits=None, level='rand', workdir=None):
         self.rng = rng
+        self.workdir = workdir
+        self.nfiles = 0
         self.pool = []          # handle -> implementation object
         self.live = []          # live handles
         self.steps = []
@@ -207,7 +264,7 @@ class History(object):
         for h in self.live:
             d = self.pool[h]
             o = obs_db(d)
-            items = fpgen.attempt(lambda: obs_items(d))
+            items = attempt(lambda: obs_items(d))
             eqs = [bool(d == self.pool[g]) for g in self.live]
             obs.append({'h': h, 'db': o, 'items': items[1] if items[0] == 'ok' else 'ERR:' + items[1], 'eq': eqs})
         return obs
@@ -226,7 +283,7 @@ class History(object):
 
     def run_new(self, tag, desc, lit, f):
         """An operation that returns a database."""
-        r = fpgen.attempt(f)
+        r = attempt(f)
         if r[0] == 'ok':
             h = len(self.pool)
             self.new_handle(r[1])
@@ -237,12 +294,12 @@ class History(object):
         return r
 
     def run_unit(self, tag, desc, lit, f):
-        r = fpgen.attempt(f)
+        r = attempt(f)
         self.record(tag, desc, lit, ('ok', 'ONone') if r[0] == 'ok' else r)
         return r
 
     def run_val(self, tag, desc, lit, f, outlit):
-        r = fpgen.attempt(f)
+        r = attempt(f)
         self.record(tag, desc, lit, ('ok', outlit(r[1])) if r[0] == 'ok' else r)
         return r
 
@@ -285,17 +342,49 @@ class History(object):
         desc = {'op': 'add', 'h': h, 'fps': [{'fp': fpgen.obs_json(f['obs']), 'props': [[k, pval_json(v)] for k, v in f['props']]} for f in fps]}
         return self.run_unit(tag, desc, lit, lambda: d.add_fingerprints([f['fp'] for f in fps]))
 
-    def op_set_prop(self, h, key, vals, tag='set_prop'):
+    def col_type(self, h, key, vals, ty=None):
+        """dtype of a column handed in empty: the stored column's, else the schema's, else int."""
+        if ty:
+            return ty
         d = self.pool[h]
-        lit = '(OpSetProp %s %s %s)' % (natlit(h), strlit(key), listlit([pval_lit(v) for v in vals]))
-        return self.run_unit(tag, {'op': 'set_prop', 'h': h, 'key': key, 'vals': [pval_json(v) for v in vals]}, lit,
-                             lambda: d.set_prop(key, list(vals)))
+        if key in d.props:
+            return KIND2TY.get(np.asarray(d.props[key]).dtype.kind, 'int')
+        return dict(self.schema).get(key, ty_of(vals))
 
-    def op_update_props(self, h, cols, tag='update_props'):
+    def op_set_prop(self, h, key, vals, tag='set_prop', ty=None):
         d = self.pool[h]
-        lit = '(OpUpdateProps %s %s)' % (natlit(h), listlit([col_lit(k, v) for k, v in cols]))
-        return self.run_unit(tag, {'op': 'update_props', 'h': h, 'cols': [[k, [pval_json(x) for x in v]] for k, v in cols]}, lit,
-                             lambda: d.update_props({k: list(v) for k, v in cols}))
+        ty = self.col_type(h, key, vals, ty)
+        lit = '(OpSetProp %s %s %s)' % (natlit(h), strlit(key), listlit([pval_lit(v) for v in vals]))
+        return self.run_unit(tag, {'op': 'set_prop', 'h': h, 'key': key, 'vals': [pval_json(v) for v in vals], 'ty': ty}, lit,
+                             lambda: d.set_prop(key, typed(vals, ty)))
+
+    def op_update_props(self, h, cols, tag='update_props', append=False, tys=None):
+        d = self.pool[h]
+        tys = tys or [self.col_type(h, k, v) for k, v in cols]
+        lit = '(OpUpdateProps %s %s %s)' % (natlit(h), listlit([col_lit(k, v) for k, v in cols]), blit(append))
+        return self.run_unit(tag, {'op': 'update_props', 'h': h, 'cols': [[k, [pval_json(x) for x in v]] for k, v in cols], 'append': append, 'tys': tys}, lit,
+                             lambda: d.update_props({k: typed(v, t) for (k, v), t in zip(cols, tys)}, append=append))
+
+    def op_reload(self, h, fpz):
+        """savez + load (.fpz) or the deprecated save + load (.fps, pickle) through a file in the work directory."""
+        D, _ = mods()
+        d = self.pool[h]
+        if self.workdir is None:
+            self.workdir = files_dir()
+        self.nfiles += 1
+        fn = os.path.join(self.workdir, 'h%d_%d_%d%s' % (id(self) % 100000, h, self.nfiles, '.fpz' if fpz else '.fps.bz2'))
+
+        def go():
+            import warnings
+            try:
+                with warnings.catch_warnings():
+                    warnings.simplefilter('ignore')                  # `save` is deprecated in favour of `savez`
+                    (d.savez if fpz else d.save)(fn)
+                    return D.FingerprintDatabase.load(fn)
+            finally:
+                if os.path.exists(fn):
+                    os.remove(fn)
+        return self.run_new('reload', {'op': 'reload', 'h': h, 'fpz': fpz}, '(OpReload %s %s)' % (natlit(h), blit(fpz)), go)
 
     def op_subset(self, h, names):
         d = self.pool[h]
@@ -380,9 +469,9 @@ class History(object):
         dk = kind_of_type(d.fp_type)
         bits = d.bits if d.bits is not None else self.bits
         schema = self.schema if schema is None else schema
-        if d.fp_num > 0:
-            # fingerprints must carry the database's columns; types follow the stored arrays
-            schema = [(k, {'i': 'int', 'f': 'float', 'b': 'bool', 'U': 'str'}.get(np.asarray(v).dtype.kind, 'int')) for k, v in d.props.items()]
+        if d.fp_num > 0 or len(d.props) > 0:
+            # fingerprints must carry the database's columns (also those declared on a still empty database); types follow the stored arrays
+            schema = [(k, KIND2TY.get(np.asarray(v).dtype.kind, 'int')) for k, v in d.props.items()]
         out = []
         for _ in range(n):
             k = dk if own else self.castable_kind(dk, lossy)
@@ -390,7 +479,8 @@ class History(object):
             if self.rng.random() < 0.15 and all(k != 'extra' for k, _ in props):
                 props = props + [('extra', 1)]
             out.append(make_fp(self.rng, k, bits, d.level, self.rand_name(), props,
-                               zero_counts=self.rng.random() < 0.08, fractional=lossy or dk == 'KFloat' or dk == 'KBit'))
+                               zero_counts=self.rng.random() < 0.08, fractional=lossy or dk == 'KFloat' or dk == 'KBit',
+                               big=self.rng.random() < 0.1))
         return out
 
     def rand_from_array(self):
@@ -423,12 +513,14 @@ class History(object):
                     r[j] = (r[j][0], Fraction(0))                    # explicit zero
             rows.append(r)
         names = [self.rand_name() for _ in range(n)]
+        if rng.random() < 0.08:
+            names = names[:-1] if rng.random() < 0.5 else names + ['a']          # not one name per row: refused
         cols = [(k, [v for _, v in [rand_props(rng, [(k, t)])[0] for _ in range(n)]]) for k, t in self.schema if rng.random() < 0.8]
         level = self.level if rng.random() < 0.85 else rng.choice([-1, 5, None])
         return self.op_from_array(kind, level, bits, dense, src, rows, names, cols)
 
     WEIGHTS = [('add_own', 14), ('add_cast', 6), ('new', 3), ('from_array', 6), ('concat', 7), ('subset', 7), ('as_type', 8), ('fold', 7),
-               ('copy', 5), ('pickle', 4), ('getint', 6), ('getname', 6), ('iter', 3), ('eq', 4), ('density', 3), ('len', 1), ('metric', 4),
+               ('copy', 5), ('pickle', 3), ('reload', 5), ('declare', 2), ('getint', 6), ('getname', 6), ('iter', 3), ('eq', 4), ('density', 3), ('len', 1), ('metric', 4),
                ('set_prop', 3), ('update_props', 2)]
 
     def rand_step(self):
@@ -480,6 +572,18 @@ class History(object):
             return self.op_copy(h)
         if what == 'pickle':
             return self.op_pickle(h, deep=rng.random() < 0.3)
+        if what == 'reload':
+            return self.op_reload(h, rng.random() < 0.6)
+        if what == 'declare':
+            # property columns declared on a database without rows (then honoured by the first addition)
+            empties = [g for g in self.live if self.pool[g].fp_num == 0]
+            if not empties:
+                return self.op_new(rng.choice(KINDS), self.level)
+            g = rng.choice(empties)
+            k, t = rng.choice(self.schema + [('q', 'int')])
+            if rng.random() < 0.5:
+                return self.op_set_prop(g, k, [], ty=t)
+            return self.op_update_props(g, [(k, [])] + ([('q2', [])] if rng.random() < 0.4 else []), append=rng.random() < 0.5, tys=[t, 'str'])
         if what == 'getint':
             n = d.fp_num
             return self.op_getint(h, rng.choice(list(range(-n - 1, n + 2))) if rng.random() < 0.9 else rng.choice([10 ** 6, -10 ** 6]))
@@ -503,15 +607,21 @@ class History(object):
                 ms += ['MTanimoto', 'MDice', 'MCosine', 'MCosine', 'MPearson']
             return self.op_metric(rng.choice(ms), h, g)
         if what == 'set_prop':
-            if d.fp_num == 0:
-                return self.op_len(h)
             k, t = rng.choice(self.schema + [('q', 'int')])
-            return self.op_set_prop(h, k, [rand_props(rng, [(k, t)])[0][1] for _ in range(d.fp_num)])
+            if k in d.props:
+                t = KIND2TY.get(np.asarray(d.props[k]).dtype.kind, t)
+            return self.op_set_prop(h, k, [rand_props(rng, [(k, t)])[0][1] for _ in range(d.fp_num)], ty=t)
         if what == 'update_props':
-            if d.fp_num == 0:
-                return self.op_len(h)
-            cols = [(k, [rand_props(rng, [(k, t)])[0][1] for _ in range(d.fp_num)]) for k, t in (self.schema + [('r', 'str')]) if rng.random() < 0.6]
-            return self.op_update_props(h, cols)
+            append = rng.random() < 0.4
+            cols, tys = [], []
+            for k, t in (self.schema + [('r', 'str')]):
+                if rng.random() < 0.6:
+                    if k in d.props:
+                        t = KIND2TY.get(np.asarray(d.props[k]).dtype.kind, t)
+                    # with append=True a stored column can only be extended by nothing; a fresh one needs a value per row
+                    cols.append((k, [] if (append and k in d.props) else [rand_props(rng, [(k, t)])[0][1] for _ in range(d.fp_num)]))
+                    tys.append(t)
+            return self.op_update_props(h, cols, append=append, tys=tys)
         raise AssertionError(what)
 
     def warmup(self):
@@ -591,9 +701,11 @@ def exec_desc(hist, d):
     if op == 'add':
         return hist.op_add(d['h'], [fp_from_json(j) for j in d['fps']], tag=d.get('tag', 'add'))
     if op == 'set_prop':
-        return hist.op_set_prop(d['h'], d['key'], d['vals'])
+        return hist.op_set_prop(d['h'], d['key'], d['vals'], ty=d.get('ty'))
     if op == 'update_props':
-        return hist.op_update_props(d['h'], [(k, v) for k, v in d['cols']])
+        return hist.op_update_props(d['h'], [(k, v) for k, v in d['cols']], append=d.get('append', False), tys=d.get('tys'))
+    if op == 'reload':
+        return hist.op_reload(d['h'], d['fpz'])
     if op == 'subset':
         return hist.op_subset(d['h'], d['names'])
     if op == 'as_type':
@@ -632,7 +744,7 @@ def replay_descs(descs, rng=None):
 
 
 def _creates(d):
-    return d['op'] in ('new', 'from_array', 'subset', 'as_type', 'fold', 'copy', 'pickle', 'deepcopy', 'concat')
+    return d['op'] in ('new', 'from_array', 'subset', 'as_type', 'fold', 'copy', 'pickle', 'deepcopy', 'concat', 'reload')
 
 
 def _renumber(descs, removed_handle):
@@ -725,11 +837,14 @@ def check_histories(ctx, hists, what, finding_key_of=None, shrink_budget=30):
                      {'coq_output_tail': raw, 'history': steps_json(h.steps)[:30]})
             continue
         descs = descs_of(h.steps[:idx + 1] if idx >= 0 else h.steps)
+        tag0 = h.steps[idx]['tag'] if 0 <= idx < len(h.steps) else None
 
         def fails(ds):
+            # the SAME failure: a divergence at an operation of the same kind (deleting operations must not trade it for
+            # a divergence in the unmodelled corner "concat of databases that all lack a matrix")
             hh = replay_descs(ds)
             i2, _ = first_divergence(ctx, hh.steps)
-            return i2 is not None and i2 >= 0
+            return i2 is not None and i2 >= 0 and (tag0 is None or hh.steps[i2]['tag'] == tag0)
         try:
             small = shrink(descs, fails, budget=shrink_budget)
             hh = replay_descs(small)
